@@ -54,7 +54,7 @@ type Proof struct {
 }
 
 func (p *Proof) IsValid(public Public) bool {
-	if p == nil {
+	if p == nil || p.Commitment == nil || p.A == nil || p.N == nil || p.B == nil || p.Z == nil || p.U == nil {
 		return false
 	}
 	if p.A.IsIdentity() || p.N.IsIdentity() || p.B.IsIdentity() {
